@@ -101,6 +101,15 @@ def run_case(case):
     def second(mk):
         """A second vendor's files for the same symbols: other prices, and ending `two` days after the cut (the
         rows dated <= T are the same function of the shared rows in both worlds)."""
+        if two == 'late':
+            # ... or a vendor whose history only begins after the cut (symbols without any row have no file at all)
+            out = {}
+            for s, rows in mk.items():
+                rr = [r[:3] + [None if x is None else round(x * 1.25, 4) for x in r[3:]] for r in rows
+                      if D.date(r[0], r[1], r[2]) > T + D.timedelta(days=1)]
+                if rr:
+                    out[s] = rr
+            return out
         stop = T + D.timedelta(days=two)
         out = {}
         for s, rows in mk.items():
@@ -118,9 +127,13 @@ def run_case(case):
         ds = q.CSVDailyBarDataSource(path, q.Equity, adjust_prices=cfg.get('adjust', True), csv_symbols=list(syms))
         if two is not None:
             # the handler is given the short second-vendor source first and the full one second
-            ds2 = q.CSVDailyBarDataSource(path + '_2', q.Equity, adjust_prices=cfg.get('adjust', True),
-                                          csv_symbols=list(syms))
-            dh = q.BacktestDataHandler(None, data_sources=[ds2, ds])
+            import os
+            have = sorted(f[:-4] for f in os.listdir(path + '_2') if f.endswith('.csv')) if os.path.isdir(path + '_2') else []
+            if have:
+                ds2 = q.CSVDailyBarDataSource(path + '_2', q.Equity, adjust_prices=cfg.get('adjust', True), csv_symbols=have)
+                dh = q.BacktestDataHandler(None, data_sources=[ds2, ds])
+            else:
+                dh = q.BacktestDataHandler(None, data_sources=[ds])
             if not reuse:
                 return session.run_session(cfg, path, syms, data_source=ds, data_handler=dh)
         else:
@@ -180,7 +193,7 @@ def run_case(case):
     if order != 'sorted':
         cls.append('files_' + order)
     if two is not None:
-        cls.append('two_sources_first_one_ends_near_cut')
+        cls.append('two_sources_first_one_starts_after_cut' if two == 'late' else 'two_sources_first_one_ends_near_cut')
     if ra.error:
         cls.append('session_error_' + ra.error[0])
     if ea:
@@ -217,7 +230,7 @@ def cases(draw):
             'mode': draw(st.sampled_from(['rewrite', 'rewrite', 'delete', 'mix', 'wild'])), 'seed': draw(st.integers(0, 10 ** 6)),
             'labels': labels + lab, 'reuse_handler': draw(st.sampled_from([False, False, True])),
             'file_order': draw(st.sampled_from(['sorted', 'sorted', 'reversed', 'shuffled'])),
-            'second_source': draw(st.sampled_from([None, None, None, 0, 2, 9]))}
+            'second_source': draw(st.sampled_from([None, None, None, 0, 2, 9, 'late', 'late']))}
 
 
 PARTS = [
